@@ -3,6 +3,7 @@ mod decoders;
 mod net;
 mod net_c03;
 mod net_c04;
+mod net_c12;
 mod sim;
 mod sim_ps;
 mod sim_rr;
@@ -24,6 +25,7 @@ fn main() {
         "transforms" => transforms::main(&args[1..]),
         "c03" => net_c03::main(&args[1..]),
         "c04" => net_c04::main(&args[1..]),
+        "c12" => net_c12::main(&args[1..]),
         "ps" => sim_ps::main(&args[1..]),
         "rr" => sim_rr::main(&args[1..]),
         "decoders" => decoders::main(&args[1..]),
